@@ -45,6 +45,14 @@ BOUNDARY = [
     "array a[3]; proc fill(array v, val n) is if n > 0 then { v[n - 1] := n; fill(v, n - 1) } else skip "
     "proc main() is { fill(a, 3); 0((a[0] + a[1]) + a[2]) }",
     "func len(array s) is return s[0] proc main() is 0(len(\"\") + len(\"abc\"))",
+    # an ADDRESS as an earlier actual and a later actual whose evaluation performs a call (inside a subscript, under an
+    # operator, nested): the callee stores through the address it received
+    "array log[4]; array tab[8]; func slot(val i) is return i proc note(array a, val v) is a[1] := v "
+    "proc main() is { tab[3] := 7; note(log, tab[slot(3)]); 0(log[1]) }",
+    "array log[4]; array tab[8]; func slot(val i) is return i proc note(array a, val v) is a[1] := v "
+    "proc main() is { tab[3] := 7; tab[7] := 3; note(log, tab[tab[slot(7)]]); note(log, 0 - tab[slot(1) + slot(2)]); 0(log[1]) }",
+    "array log[4]; array tab[8]; func slot(val i) is return i proc note3(val k, array a, val v) is a[k] := v "
+    "proc main() is { tab[2] := 5; note3(2, log, tab[slot(2)] + 1); note3(slot(1), log, tab[slot(2)]); 0(log[2] + log[1]) }",
     "proc main() is 1(2(0), 0)",
     "proc main() is { 1('a', 256); 1('b', 256); 0(2(512)) }",
 ]
